@@ -1252,6 +1252,8 @@ func c03w2Stream(e *emitter, r *rng, thorough bool) {
 		"select int(value) as a, a * 2 as b, a * 3 as c, a * 5 as d, key where 0 < a & 6 > a + 1 & 6 > a + 1 order by b desc, key",
 		"select key, int(value) as a, a * 2 as b, a * 3 as c, a * 5 as d where a between 0 and 5 & a in (0, 1, 2, 3, 4, 5) & a != 9 limit 1, 4",
 		"select key, strlen(value) as a, a + 1 as b, a + 2 as c, a + 3 as d where a = 1 | a + a = 2 | a * a = 1",
+		"select key + ':' as p, p + value as kv, p + 'end' as m, p + p as pp where key != 'zzzz'",
+		"select key, upper(value) + '-' + key as p, p + 'a' as q, p + 'bc' as r where p + 'x' != p + 'y'",
 	}
 	for _, B := range Bs {
 		sizes := []int{0, 1, B, B + 1, 2*B + 1, 3*B + 1}
@@ -1271,6 +1273,46 @@ func c03w2Stream(e *emitter, r *rng, thorough bool) {
 	}
 	for _, q := range aliasStmts {
 		c03StmtCase(e, q, c03w2IntStore(r, 11, 0, 6), 3, true, 0, "class2: alias referenced >= 3 times, cache on")
+	}
+
+	// directed class 3: point reads (key in (...)) over lists in which some LISTED keys are not
+	// stored -- at the start, in the middle, at the end, whole rounds of them -- with an alias used
+	// in WHERE and selected (positions in the list vs rows actually read), more listed keys than
+	// one batch, cache on and off
+	for _, B := range []int{1, 2, 3, 32} {
+		for _, nkeys := range []int{6, B + 2, 2*B + 3, 40} {
+			kvs := c03w2IntStore(r, nkeys, 0, 9)
+			for variant := 0; variant < 4; variant++ {
+				var listed []string
+				var stored [][2]string
+				for i, kv := range kvs {
+					listed = append(listed, "'"+kv[0]+"'")
+					missing := false
+					switch variant {
+					case 0:
+						missing = i%3 == 1 // every third
+					case 1:
+						missing = i < B // the whole first round
+					case 2:
+						missing = i == 1 || i == nkeys-2
+					case 3:
+						missing = i >= B && i < 2*B // the whole second round
+					}
+					if !missing {
+						stored = append(stored, kv)
+					}
+				}
+				in := "key in (" + strings.Join(listed, ", ") + ", 'zz')"
+				for _, q := range []string{
+					"select key, int(value) as n where (" + in + ") & (n > 0)",
+					"select key, int(value) as n, n * 2 as m, m + n as t where (" + in + ") & m != 4",
+					"select key, value as v, v + '!' as w where " + in + " & v != '3'",
+				} {
+					c03StmtCase(e, q, stored, B, true, 0, "class3: point reads with listed keys not stored, cache on")
+					c03StmtCase(e, q, stored, B, false, 0, "class3: point reads with listed keys not stored, cache off")
+				}
+			}
+		}
 	}
 }
 
